@@ -321,8 +321,19 @@ ProgOK(r) ==
         /\ Valid(r.twin)                             \*     so the fault is what was rejected
         /\ r.twin_compiled
 
+(***************************************************************************)
+(* deep: adversarially deep input for a recursive type, decoded with a     *)
+(* depth limit on a small fixed-size stack (C11): the value recurses       *)
+(* through `levels` containers, so any limit below that must give an error *)
+(* - not a dead thread.                                                    *)
+(***************************************************************************)
+DeepOK(r) ==
+  /\ r.res \in {"ok", "err"}
+  /\ r.levels > r.limit => r.res = "err"
+
 RecOK(r) ==
   CASE r.k = "enc" -> EncOK(r)
+    [] r.k = "deep" -> DeepOK(r)
     [] r.k = "prog" -> ProgOK(r)
     [] r.k = "skipenc" -> SkipEncOK(r)
     [] r.k = "heap" -> HeapOK(r)
